@@ -51,6 +51,8 @@ Launch(r) ==
 (*   o.uploaders  how many of them were told to upload                       *)
 (*   o.nested     number of sidecars launched by a sidecar or by any         *)
 (*                descendant of one                                          *)
+(*   o.unmarked   number of processes launched as a sidecar that do not find *)
+(*                GO_TELEMETRY_CHILD=1 in their environment                   *)
 (*   o.launched   number of processes of any kind launched, transitively     *)
 (*   o.acquired   the starter created / replaced the token file              *)
 (*   o.wrote      classes of files created, changed or removed               *)
@@ -81,6 +83,10 @@ UploaderNeedsToken(r, e, o) == o.uploaders > 0 => (o.acquired \/ e.leak)
 (*  never launches another"                                                  *)
 NeverRecursive(r, e, o) == /\ r.marker \in {"1", "2"} => o.sidecars = 0
                            /\ o.nested = 0
+(* "1" marks the sidecar: the process an application launches as its        *)
+(* sidecar sees GO_TELEMETRY_CHILD=1, whatever the application inherited    *)
+(* (a marker that is set but empty is an application's)                      *)
+ChildIsMarked(r, e, o) == o.unmarked = 0
 (* "with mode off nothing is launched and nothing is written".  One thing is *)
 (* tolerated and counted as an observation: a process that is already the   *)
 (* sidecar and was told to upload opens the uploader's log file in a debug  *)
@@ -99,13 +105,14 @@ TokenOncePer24h(r, e, o) == o.acquired => r.token # "fresh"
 (* token of their own                                                        *)
 AtMostOneUploader(r, e, o) == (r.token # "stale" /\ ~e.leak) => (IF r.token = "fresh" THEN 1 ELSE 0) + o.uploaders <= 1
 
-Clauses == {"OnlyIfCalledFor", "UploaderNeedsToken", "NeverRecursive", "OffIsInert", "TokenOncePer24h", "AtMostOneUploader"}
+Clauses == {"OnlyIfCalledFor", "UploaderNeedsToken", "NeverRecursive", "OffIsInert", "TokenOncePer24h", "AtMostOneUploader", "ChildIsMarked"}
 Holds(c, r, e, o) == CASE c = "OnlyIfCalledFor"     -> OnlyIfCalledFor(r, e, o)
                        [] c = "UploaderNeedsToken"  -> UploaderNeedsToken(r, e, o)
                        [] c = "NeverRecursive"      -> NeverRecursive(r, e, o)
                        [] c = "OffIsInert"          -> OffIsInert(r, e, o)
                        [] c = "TokenOncePer24h"     -> TokenOncePer24h(r, e, o)
                        [] c = "AtMostOneUploader"   -> AtMostOneUploader(r, e, o)
+                       [] c = "ChildIsMarked"       -> ChildIsMarked(r, e, o)
 
 (* the outcome the table predicts for ONE start, in the vocabulary of the   *)
 (* clauses; a sidecar that uploads in mode "on" runs the go command once    *)
@@ -118,12 +125,14 @@ Predicted1(r, e) ==
   IN [ sidecars  |-> IF d.child THEN 1 ELSE 0,
        uploaders |-> IF up THEN 1 ELSE 0,
        nested    |-> 0,
+       unmarked  |-> 0,
        launched  |-> (IF d.child THEN 1 ELSE 0) + goes,
        acquired  |-> d.acquired,
        wrote     |-> d.wrote \cup (IF logs THEN {"debuglog"} ELSE {}) ]
 (* what the next start finds *)
 After(r) == [r EXCEPT !.token = IF Acquires(r) THEN "fresh" ELSE r.token]
 Plus(a, b) == [ sidecars |-> a.sidecars + b.sidecars, uploaders |-> a.uploaders + b.uploaders, nested |-> a.nested + b.nested,
+                unmarked |-> a.unmarked + b.unmarked,
                 launched |-> a.launched + b.launched, acquired |-> a.acquired \/ b.acquired, wrote |-> a.wrote \cup b.wrote ]
 RECURSIVE PredictedN(_, _, _)
 PredictedN(r, e, k) == IF k <= 1 THEN Predicted1(r, e) ELSE Plus(Predicted1(r, e), PredictedN(After(r), e, k - 1))
@@ -141,7 +150,7 @@ MayWrite(r, e) == (IF UploaderRuns(r, e) /\ r.mode # "off" /\ r.localOK THEN {"u
 (* exact agreement of an outcome with the table *)
 Conforms(r, e, o) == LET p == Predicted(r, e) IN
                      /\ o.sidecars = p.sidecars /\ o.uploaders = p.uploaders
-                     /\ o.nested = 0 /\ o.launched = p.launched
+                     /\ o.nested = 0 /\ o.unmarked = 0 /\ o.launched = p.launched
                      /\ o.acquired = p.acquired
                      /\ p.wrote \subseteq o.wrote
                      /\ o.wrote \subseteq p.wrote \cup MayWrite(r, e)
